@@ -513,6 +513,55 @@ class Run:
             n["Exp"] += 1
             self.count_nodes(x.exp)
 
+    def parts(self, x, acc):
+        """the sub-objects of a tree (the library's own objects, so that identity-keyed branches fire)"""
+        m = self.m
+        if isinstance(x, int):
+            if x not in (0, 1, -1):
+                acc.append(x)
+            return acc
+        acc.append(x)
+        if isinstance(x, (m.Add, m.Mul)):
+            self.parts(x.l, acc)
+            self.parts(x.r, acc)
+        elif isinstance(x, m.Div):
+            self.parts(x.num, acc)
+            acc.append(x.den)
+        elif isinstance(x, m.Exp):
+            self.parts(x.exp, acc)
+        return acc
+
+    def related(self, a, base):
+        """a right operand structurally related to `a`: one of its own sub-terms (the same object),
+        its negation, a small multiple, or a power of the same base with a neighbouring exponent -
+        the simplification branches keyed on `other == self.l`, `self.r == other.r`, ... need these"""
+        r = self.rng
+        ps = self.parts(a, [])[1:] or [a]
+        m = self.m
+        kids = ([a.l, a.r] if isinstance(a, (m.Add, m.Mul)) else [a.num, a.den] if isinstance(a, m.Div)
+                else [a.exp] if isinstance(a, m.Exp) else [])
+        kids = [k for k in kids if not (isinstance(k, int) and k in (0, 1, -1))]
+        x = r.choice(kids) if kids and r.random() < 0.5 else r.choice(ps)
+        how = r.choice((0, 0, 0, 1, 2, 3, 4))
+        try:
+            if how == 1:
+                x, exc = self.apply("sub", 0, x, "construct")
+                if exc:
+                    return None
+            elif how == 2:
+                x, exc = self.apply("mul", r.choice((2, 3, -1, 5)), x, "construct")
+                if exc:
+                    return None
+            elif how == 3 and isinstance(x, self.m.Exp) and isinstance(x.exp, int):
+                x = self.m.make_exp(x.base, max(2, x.exp + r.choice((-2, -1, 1, 2, 3))))
+            elif how == 4:
+                x, exc = self.apply("add", x, r.choice((1, -1, 2, base)), "construct")
+                if exc:
+                    return None
+        except (TooBig, Inexact):
+            return None
+        return x
+
     def pair(self):
         r = self.rng
         S = self.S
@@ -542,6 +591,12 @@ class Run:
                     va = 0
                 divs = [k for k in (2, 3, 4, 5, 6, 7, 8, 9, 10, 12, 16, 27, base, base * base) if va % k == 0]
                 b = r.choice(divs) if divs and r.random() < 0.6 else self.leaf()
+            elif x < 0.45 and not isinstance(a, int):
+                b = self.related(a, base)
+                if b is not None and self.ok_operand(b):
+                    self.stats["related_operand_pairs"] = self.stats.get("related_operand_pairs", 0) + 1
+                else:
+                    b = self.gen(r.choice((1, 1, 2, 2, 3, 3, 4)), base_b)
             else:
                 b = self.gen(r.choice((1, 1, 2, 2, 3, 3, 4)), base_b)
         if r.random() < 0.12:
